@@ -27,6 +27,11 @@ def main():
     if '-j' in sys.argv:
         j = int(sys.argv[sys.argv.index('-j') + 1]); args = [a for a in args if a != str(j)]
     pids = [c['property_id'] for c in json.load(open(os.path.join(V, 'MANIFEST.json')))['checks']]
+    only = None
+    if '--only' in sys.argv:        # --only C10,C11 : run just these checks (nothing is written to RESULT.json)
+        only = sys.argv[sys.argv.index('--only') + 1].split(',')
+        args = [a for a in args if a != sys.argv[sys.argv.index('--only') + 1]]
+        pids = [p for p in pids if p in only]
     items = []
     bd = os.path.join(V, 'benign')
     for s in sorted(x for x in os.listdir(bd) if os.path.isdir(os.path.join(bd, x))):
@@ -41,6 +46,6 @@ def main():
         for f in futs:
             r = f.result(); out.append(r)
             print('%-22s %s %s' % (r['benign'], 'applies' if r['applies'] else 'STALE', ('FALSE ALARMS: ' + json.dumps(r['alarms'])[:600]) if r['alarms'] else 'silent'))
-    if not args:
+    if not args and only is None:
         json.dump(out, open(os.path.join(bd, 'RESULT.json'), 'w'), indent=1)
 main()
